@@ -394,7 +394,7 @@ func (r *Runner) Step(s Step) *Failure {
 				attached++
 			}
 		}
-		if !p.Attached || attached <= 1 {
+		if !p.Attached || (attached <= 1 && r.P.Cfg.Flags["allow_all_detach"] == 0) {
 			return r.Step(Step{Who: s.Who, Op: "sync"})
 		}
 		r.log("c%d: detach", p.Idx)
